@@ -114,8 +114,15 @@ def tables_and_cursor(rep, idx, spec, table, obj, named):
         rep.bad("C02.4", site, "placement cursor advances to the end of the new item", "self._next_addr is not assigned")
     else:
         v = cur[0]
-        if v == ('attr', R, 'stop') or v == ('sub', R, ('const', -1)):
+        last_plus = [c.norm(('bin', '+', ('sub', R, ('const', -1)), ('const', 1))), ('sub', R, ('const', -1))]
+        if v == ('attr', R, 'stop'):
             rep.ok("C02.4", site, "placement cursor advances to the end of the new item", "self._next_addr = <inserted range>.stop")
+        elif v == last_plus[0] and R[0] == 'call' and len(R[2]) < 3 and not any(k_ == 'step' for k_, _ in R[3]):
+            rep.ok("C02.4", site, "placement cursor advances to the end of the new item",
+                   "self._next_addr = <inserted range>[-1] + 1, and the range has step 1 here")
+        elif v in last_plus:
+            rep.bad("C02.4", site, f"self._next_addr = {ir.show(v)[:80]}", "the last *element* of the inserted range is stop - step, not stop - 1: "
+                    "for a dense window (range(start, stop, ratio)) the cursor ends up inside the window and the next implicit placement overlaps it")
         elif v == ('attr', R, 'start') or v[0] == 'const' or v == c.norm(('bin', '+', ('attr', R, 'start'), ('call', ('name', 'len'), (R,), ()))):
             rep.bad("C02.4", site, f"self._next_addr = {ir.show(v)[:80]}", "the cursor must become the range's stop (start + element count "
                     "differs from the stop when the range has a step, i.e. for dense windows)")
